@@ -27,6 +27,9 @@ func init() {
 			"(R07.2) every number rewrite and zero repair is unreachable with KeepNumbers; (R07.3) the leading-zero repair: when the shortened number starts with '.' a \"0\" is written first, when it starts with \"-.\" a \"-0\" is written and the sign dropped, on every path to the write of the number. Not covered: numeric equality (C08), separator state machine (parser), `never longer`.",
 		Run: runC07,
 	})
+	mutant(&Mutant{Name: "c06-processing-instruction-content-decoded", Property: "C06", File: "xml/xml.go",
+		Old: "if inPI || len(t.AttrVal) < 2 ||", New: "if len(t.AttrVal) < 2 ||",
+		Rule: "R06.10", Construct: "only outside a processing instruction"})
 	mutant(&Mutant{Name: "c06-text-written-without-cdata-end-escape", Property: "C06", File: "xml/xml.go",
 		Old: "\t\t\tt.Data, brackets = escapeCDATAEnd(t.Data, brackets)\n\t\t\tw.Write(t.Data)\n", New: "\t\t\tw.Write(t.Data)\n",
 		Rule: "R06.9", Construct: "after the ]]> escaper"})
@@ -96,6 +99,7 @@ func init() {
 func runC06(c *Ctx) {
 	defer c.tokenBuffer("R06.8", "xml")
 	defer c.r069("R06.9", "xml")
+	defer c.r0610()
 	const r1, r2, r3 = "R06.1", "R06.2", "R06.3"
 	c.R.Rule(r1, "the `switch t.TokenType` of xml.(*Minifier).Minify has a case for every constant of parse/v2/xml.TokenType except CommentToken (comments are the only nodes removed); in every case other than ErrorToken, every path from the case to the next token passes a w.Write(…) on the output writer; the only token skipped before the switch is the CDATA section with empty text")
 	c.R.Rule(r2, "assuming o.KeepWhitespace: the trim of the last space of a text token before a start/end tag is unreachable, and in the StartTagToken and EndTagToken cases every path passes `omitSpace = false` (the next text keeps its leading space)")
@@ -1202,4 +1206,67 @@ func (c *Ctx) r069(rule, rel string) {
 			c.R.Unres(rule, construct, c.pos(efd), "the escaper is not the one-pass automaton this rule can judge ("+strings.Join(problems, "; ")+"): a `]]>` that straddles two runs of character data — one `]` at the end of the previous run, `]>` at the start of this one — is the case such rewrites get wrong, and it cannot be decided here")
 		}
 	}
+}
+
+// R06.10: the content of a processing instruction is not entity-decoded.
+func (c *Ctx) r0610() {
+	const rule = "R06.10"
+	c.R.Rule(rule, "XML 1.0 §2.6: a processing instruction's content is character data for the target application; references are not recognised in it. The lexer hands that content out as attribute tokens (the minifier tracks this with its in-PI flag). In xml.(*Minifier).Minify the entity replacement and re-quoting of attribute values (parse.ReplaceEntities / xml.EscapeAttrVal in case AttributeToken) cannot be reached while that flag is set: `<?pi x=\"&quot;\"?>` must not become `<?pi x='\"'?>`")
+	pk := c.pkg(rule, "xml")
+	if pk == nil {
+		return
+	}
+	info := pk.TypesInfo
+	fd := c.fn(rule, pk, "Minifier.Minify")
+	if fd == nil {
+		return
+	}
+	g := c.graph(pk, fd)
+	// the in-PI flag: a bool local assigned true in the StartTagPIToken case
+	flag := ""
+	for _, y := range g.Nodes {
+		as, ok := y.Stmt.(*ast.AssignStmt)
+		if !ok || y.Kind != flow.KStmt || len(as.Lhs) != 1 || len(as.Rhs) != 1 || nospace(str(as.Rhs[0])) != "true" {
+			continue
+		}
+		for _, f := range g.DomFacts(y) {
+			if f.Test.Kind == flow.KCase && f.Value && nospace(str(f.Test.Expr)) == "xml.StartTagPIToken" {
+				flag = nospace(str(as.Lhs[0]))
+			}
+		}
+	}
+	if flag == "" {
+		c.R.Unres(rule, "xml.Minifier.Minify/in-PI flag", c.pos(fd), "no boolean set in the StartTagPIToken case")
+		return
+	}
+	n := 0
+	for _, y := range g.Nodes {
+		a := y.Ast()
+		if a == nil || y.Kind != flow.KStmt {
+			continue
+		}
+		if len(findCalls(info, a, false, load.ParseMod+".ReplaceEntities", load.ParseMod+".ReplaceMultipleWhitespaceAndEntities", load.ParseMod+"/xml.EscapeAttrVal")) == 0 {
+			continue
+		}
+		inAttr := false
+		var head *flow.Node
+		for _, f := range g.DomFacts(y) {
+			if f.Test.Kind == flow.KCase && f.Value && nospace(str(f.Test.Expr)) == "xml.AttributeToken" {
+				inAttr = true
+			}
+		}
+		if !inAttr {
+			continue
+		}
+		for _, q := range g.Nodes {
+			if q.Kind == flow.KTrue && q.Of != nil && q.Of.Kind == flow.KCase && nospace(str(q.Of.Expr)) == "xml.AttributeToken" {
+				head = q
+			}
+		}
+		n++
+		y := y
+		p := g.Path(flow.Search{From: []*flow.Node{head}, IncludeFrom: true, Goal: func(q *flow.Node) bool { return q == y }, Assume: map[string]bool{flag: true}, Avoid: func(q *flow.Node) bool { return !g.Dominates(head, q) }})
+		c.R.Check(p == nil, rule, fmt.Sprintf("xml.Minifier.Minify/case xml.AttributeToken/value rewritten#%d only outside a processing instruction", n), c.pos(a), "unreachable while "+flag+" is set", "the value of a pseudo-attribute of a processing instruction is entity-decoded and re-quoted like an element's attribute: `<?pi x=\"&quot;\"?>` → `<?pi x='\"'?>` — references are not recognised in a PI, so its data changed")
+	}
+	c.R.Floor(rule, "rewrites of attribute values", n, 1)
 }
